@@ -5,6 +5,7 @@ import Pdt.Props.Lemmas.Sort
 import Pdt.Props.Lemmas.Rows
 import Pdt.Model.Verbs
 import Pdt.Props.Lemmas.Partition
+import Pdt.Props.Lemmas.KeyOrder
 
 namespace Pdt.C05
 open Pdt Pdt.Spec
@@ -79,6 +80,29 @@ theorem arrange_sorted (rows : List Row) (ords : List Ord)
     (sortIdx rows ords).Pairwise (fun a b => cmpIdx rows ords a b ≠ .gt) := by
   rw [sortIdx_eq]
   exact stableSort_pairwise _ htot htrans _
+
+/-- the key tuple `arrange` compares row `i` by -/
+def keyRow (rows : List Row) (ords : List Ord) (i : Nat) : List Val :=
+  (transpose (evalOrds (singletons rows) ords) rows.length).getD i []
+
+/-- **`arrange` sorts**: when every key column holds values of one family (integers, strings or booleans)
+    and nulls, the result is in key order — for every combination of `descending`, `nulls_first`,
+    `nulls_last` markers and every number of keys; no assumption on the comparison is left -/
+theorem arrange_sorted_typed (rows : List Row) (ords : List Ord) (fams : List KFam) (hlen : ords.length = fams.length)
+    (hfit : ∀ i, i < rows.length → fits fams (keyRow rows ords i)) :
+    (sortIdx rows ords).Pairwise (fun a b => cmpIdx rows ords a b ≠ .gt) := by
+  rw [sortIdx_eq]
+  have hspec : (ords.map (fun o => (o.2.1, o.2.2))).length = fams.length := by simpa using hlen
+  apply stableSort_pairwise_on (cmpIdx rows ords) (fun i => i < rows.length)
+  · intro a b ha hb h
+    exact cmpKeys_total fams _ _ _ hspec (hfit a ha) (hfit b hb) h
+  · intro a b c ha hb hc h1 h2
+    exact cmpKeys_trans fams _ _ _ _ hspec (hfit a ha) (hfit b hb) (hfit c hc) h1 h2
+  · intro y hy; simpa using hy
+
+/-- non-vacuity: two keys (a descending nullable integer with nulls last, then a string) -/
+example : fits [.int, .str] [.null, .str "a"] ∧ fits [.int, .str] [.int 3, .null] := by
+  simp [fits, KFam.mem, intFam, strFam]
 
 theorem pair_sublist_range (i j n : Nat) (hij : i < j) (hj : j < n) : [i, j].Sublist (List.range n) := by
   have h1 : (List.range (j + 1)).Sublist (List.range n) := List.range_sublist.2 (by omega)
